@@ -418,6 +418,20 @@ def pick_buf(rs, bufs, n):
     return max(list(bufs) + [-1]) + 1
 
 
+def tiny_vec(rs):
+    """random direction, length log-uniform in [1e-12, 1e-2] nm"""
+    d = rs.normal(size=3)
+    return d / np.linalg.norm(d) * 10 ** rs.uniform(-12, -2)
+
+
+def far_point(rs):
+    """a point at a distance between 0 and 500 nm from the origin (log-uniform above 1 nm, sometimes the origin)"""
+    if rs.randint(0, 8) == 0:
+        return [0.0, 0.0, 0.0]
+    d = rs.normal(size=3)
+    return [float(x) for x in d / np.linalg.norm(d) * 10 ** rs.uniform(0, np.log10(500.0))]
+
+
 def world_of(fam):
     return fam[0].world
 
@@ -539,6 +553,17 @@ def gen_op(rs, fam, bufs=None):
         elif k in ("move", "move_to"):
             op["v"] = rvec(rs, 5 if k == "move" else 20)
             r = rs.randint(0, 10)
+            if k == "move_to" and r in (3, 4, 5):
+                # a target taken relative to the CURRENT centre: exactly it, or 1e-12 .. 1e-2 nm away
+                c = np.array(h.obj.geometric_center, dtype=float)
+                if np.isfinite(c).all():
+                    op["v"] = [float(x) for x in (c if rs.randint(0, 6) == 0 else c + tiny_vec(rs))]
+            elif k == "move_to" and r == 6:
+                op["v"] = far_point(rs)                        # place the body up to 500 nm from the origin
+            elif k == "move_to" and r == 7 and not full:
+                p_ = far_point(rs)                             # move_to(p); move(tiny); move_to(p)
+                return [{"h": hi, "op": "move_to", "v": p_}, {"h": hi, "op": "move", "v": tiny_vec(rs).tolist()},
+                        {"h": hi, "op": "move_to", "v": p_}]
             if r == 0:
                 op["src"] = {"kind": "atom", "k": int(rs.randint(0, n))}      # a live array of the body itself
             elif r == 1:
@@ -714,7 +739,8 @@ class Oracle:
                 self.bad.append("step %d: %s changed an interatomic distance by %.3g" % (step, k, np.abs(pdist(P0) - pdist(P1)).max()))
             c0, c1 = centre(P0), centre(P1)
             want = {"move": c0 + np.array(op.get("v", [0, 0, 0])), "move_to": np.array(op.get("v", [0, 0, 0])), "rotate": c0}[k]
-            if np.abs(c1 - want).max() > TOL:
+            # 1e-9 nm, plus what double rounding of coordinates of this size needs (1e-13 relative)
+            if np.abs(c1 - want).max() > TOL + 1e-13 * max(np.abs(want).max(), np.abs(c0).max()):
                 self.bad.append("step %d: %s put the geometric centre %.3g away from where it belongs" % (step, k, np.abs(c1 - want).max()))
         self.before = after
 
@@ -1050,6 +1076,17 @@ def corpus_cases():
         {"h": 0, "op": "move_to", "v": [0.0, 0.0, 0.0]}, {"h": 0, "op": "set_positions", "l": [[1.0, 2.0, 3.0]] * 5, "dt": "list"},
         {"h": 0, "op": "set_positions", "l": [[1.0, 0.0, 0.0], [2.0, 0.0, 0.0], [2.0, 1.0, 0.0], [2.0, 1.0, 1.0], [3.0, 1.0, 1.0]], "dt": "i8"},
         {"h": 0, "op": "copy"}, {"h": 4, "op": "rotate", "m": rot}]
+
+    # witness of seeded change C18-8: a re-centring onto a point very close to the current centre is still a re-centring
+    far = [120.0, 250.0, 80.0]
+    yield "recentring_by_a_tiny_amount", w, [
+        {"h": 0, "op": "move_to", "v": far}, {"h": 0, "op": "move", "v": [1e-3, -2e-3, 5e-4]}, {"h": 0, "op": "move_to", "v": far},
+        {"h": 0, "op": "resview", "i": 0}, {"h": 1, "op": "move_to", "v": far}, {"h": 1, "op": "move", "v": [1e-3, -2e-3, 5e-4]},
+        {"h": 1, "op": "move_to", "v": far}, {"h": 0, "op": "move_to", "v": [31.0, 47.5, 12.25]}, {"h": 0, "op": "copy"},
+        {"h": 2, "op": "move", "v": [2e-4, 1e-4, -1e-4]}, {"h": 2, "op": "move_to", "v": [31.0, 47.5, 12.25]},
+        {"h": 2, "op": "move", "v": [3e-7, 0.0, 0.0]}, {"h": 2, "op": "move_to", "v": [31.0, 47.5, 12.25]},
+        {"h": 2, "op": "move_to", "v": [1.0, 2.0, 3.0]}, {"h": 2, "op": "move", "v": [0.0, 2e-8, 0.0]}, {"h": 2, "op": "move_to", "v": [1.0, 2.0, 3.0]},
+        {"h": 0, "op": "move_to", "v": [0.0, 0.0, 0.0]}, {"h": 0, "op": "move", "v": [5e-9, 0.0, 0.0]}, {"h": 0, "op": "move_to", "v": [0.0, 0.0, 0.0]}]
 
 
 # ------------------------------------------------------------------ check entry points
